@@ -1,9 +1,80 @@
-(* props/C01.v -- C01: write-then-read returns the same graph.  (being extended) *)
-From Geff Require Import Base Dtype Vlen VlenLemmas Tree Validate Write Read.
+(* props/C01.v -- C01: write-then-read returns the same graph (ids, properties, missing masks). *)
+From Geff Require Import Base Dtype Vlen VlenLemmas Tree Validate Write Read RoundTrip WriteLemmas ReadLemmas ValidateLayout C01Lemmas.
+Open Scope string_scope.
 Open Scope list_scope.
 
+(* For every target that holds no geff (absent, or an existing zarr group without nodes/edges/geff),
+   every well-formed input (wf_input: 1-D integer node ids, (E,2) edge ids of the same dtype, properties
+   whose first dimension is N resp. E with optional 1-D boolean masks of that length, var-length elements
+   of one rank and dtype, distinct names; metadata naming no absent property; axes naming 1-D unmasked node
+   properties) of any size:  write_arrays succeeds, the result passes structural validation, and reading it
+   back returns exactly the ids (values, order, dtype) and, for every property, the same dtype (float16
+   upcast to float32), shape, missing mask and ALL values -- together with the metadata that was stored. *)
+Theorem C01_roundtrip : forall k pre g md md' n e ov,
+  clean k pre -> wf_input g md n e -> final_metadata g md = Ok md' ->
+  exists tr post,
+    write_arrays k g md true ov (init pre) = (mkst (Some post) tr, Ok tt) /\
+    validate_structure k (Some post) = Ok tt /\
+    read_to_memory k (Some post) true None None
+    = Ok (mkmg md' (w_nids g) (w_eids g)
+               (up_props (backfill (w_nids g) md (w_nprops g))) (up_props (w_eprops g))).
+Proof. exact write_then_read. Qed.
+Print Assumptions C01_roundtrip.
+
+(* what is stored is the documented layout: nodes/ids, edges/ids, props/<name>/{values,missing,data}, attrs["geff"] *)
+Theorem C01_layout : forall k pre g md md' v ov n,
+  clean k pre -> a_dt (w_nids g) = a_dt (w_eids g) -> is_integer (a_dt (w_nids g)) = true ->
+  len0 (w_nids g) = Some n ->
+  props_ok (backfill (w_nids g) md (w_nprops g)) -> props_ok (w_eprops g) ->
+  final_metadata g md = Ok md' ->
+  (v = true -> validate_structure k (Some (layout pre g (backfill (w_nids g) md (w_nprops g)) md')) = Ok tt) ->
+  exists tr, write_arrays k g md v ov (init pre)
+             = (mkst (Some (layout pre g (backfill (w_nids g) md (w_nprops g)) md')) tr, Ok tt).
+Proof. exact write_arrays_layout. Qed.
+Print Assumptions C01_layout.
+
+(* one property: the three stored arrays decode to the property (after the float16 upcast) *)
+Theorem C01_prop_roundtrip : forall name n p pm v m d,
+  wf_prop n p -> create_props_metadata name p = Ok pm -> encode_prop p = Ok (v, m, d) ->
+  load_prop (mkzprop v m d) None pm = Ok (upcast_prop p).
+Proof. exact prop_roundtrip. Qed.
+Print Assumptions C01_prop_roundtrip.
+
+(* variable-length values: decode (encode l) = l for every sequence of one rank and dtype *)
 Theorem C01_vlen_roundtrip : forall vals rows data,
   Forall wf_varr vals -> serialize vals = Ok (rows, data) ->
-  deserialize rows data = Ok (map (fun a => (v_shape a, v_flat a)) vals).
+  deserialize rows data = Ok (map elem_view vals).
 Proof. exact serialize_deserialize. Qed.
 Print Assumptions C01_vlen_roundtrip.
+
+(* non-vacuity: a graph with 2 nodes, 1 edge, an axis, a masked float16 matrix property and a var-length
+   property meets the premises, on an absent target and beside a foreign group *)
+Definition ex_g : wgraph :=
+  mkwg (mkarr DU64 [2%nat] [18446744073709551615; 0]%Z) (mkarr DU64 [1%nat; 2%nat] [0; 18446744073709551615]%Z)
+       (Some [("x", mkprop (PFixed (mkarr DF64 [2%nat] [1536; -512]%Z)) None);
+              ("m", mkprop (PFixed (mkarr DF16 [2%nat; 2%nat] [1; 2; 3; 4]%Z)) (Some (mkarr DBool [2%nat] [0; 1]%Z)));
+              ("v", mkprop (PVlen [Build_varr DI8 [2%nat; 1%nat] [7; 8]%Z; Build_varr DI8 [0%nat; 3%nat] []]) None)])
+       (Some [("w", mkprop (PFixed (mkarr DStr [1%nat] [5]%Z)) None)]).
+Definition ex_md : smeta := mkmd true (Some [mkax "x" (Some 0%Z) (Some 9%Z) 1%Z]) [] [] 2%Z.
+
+Example C01_nonvacuous :
+  wf_input ex_g ex_md 2 1 /\ clean KPath None /\
+  clean KObj (Some (ZG [("foo", AOther 1%Z)] [("other", ZG [] [])])) /\
+  exists md', final_metadata ex_g ex_md = Ok md' /\
+              md_axes md' = Some [mkax "x" (Some (-512)%Z) (Some 1536%Z) 1%Z].
+Proof.
+  split; [|split; [exact I | split; [cbn; auto | eexists; split; [vm_compute; reflexivity | reflexivity]]]].
+  constructor; try reflexivity.
+  - intros ps Hps. vm_compute in Hps. inversion Hps; subst ps; clear Hps. split.
+    + repeat constructor; cbn; intuition discriminate.
+    + repeat constructor; try (eexists; eexists; split; vm_compute; reflexivity);
+        try (cbn; eexists; reflexivity); cbn; auto.
+      all: try (unfold wf_varr; reflexivity).
+  - intros ps Hps. inversion Hps; subst ps; clear Hps. split.
+    + repeat constructor; cbn; intuition.
+    + repeat constructor; try (eexists; eexists; split; vm_compute; reflexivity); try (cbn; eexists; reflexivity); cbn; auto.
+  - intros k0 H. destruct H.
+  - intros k0 H. destruct H.
+  - intros axes Hax. inversion Hax; subst axes; clear Hax. eexists. split; [vm_compute; reflexivity|].
+    intros ax [<-|[]]. eexists; eexists. split; [left; reflexivity | reflexivity].
+Qed.
